@@ -133,7 +133,10 @@ pub fn read_execstart(unit_text: &str) -> Result<Vec<Vec<u8>>, String> {
     i += 1;
   }
   let line = logical.ok_or("no ExecStart line")?;
-  if !after.is_empty() { return Err(format!("text after the ExecStart line: {:?}", after.iter().take(3).collect::<Vec<_>>())); }
+  // Lines after the ExecStart line: further settings, sections, comments - and even lines systemd cannot parse, which it
+  // skips with a warning - do not change what the ExecStart line yields, so they are no business of this property.  A
+  // second ExecStart= assignment is: a simple service with two of them is refused ("more than one ExecStart= setting").
+  if let Some(l) = after.iter().find(|l| l.trim_start().starts_with("ExecStart=")) { return Err(format!("a second ExecStart= line follows: {:?}", truncate(l, 200))); }
   let words = split_words(&line["ExecStart=".len()..])?;
   let mut out = vec![];
   for w in words { for x in expand_env(&expand_specifiers(&w)) { out.push(x); } }
